@@ -7,6 +7,7 @@ mod common;
 mod hs;
 mod merkle;
 mod node;
+mod restart;
 mod sync;
 
 #[global_allocator]
@@ -31,6 +32,11 @@ fn main() {
         "merkle" => merkle::run(seed, tier, out),
         "hs" => hs::run(seed, tier, out),
         "sync" => sync::run(seed, tier, out),
+        "disk" => restart::run(seed, tier, out),
+        "disk-worker" => restart::worker(seed, tier, args[4].parse().unwrap_or(0)),
+        "disk-probe" => restart::probe(seed, tier),
+        "disk-one" => restart::one(seed, &args[3]),
+        "disk-flags" => println!("{}", restart::calibrate()),
         // replay of a handshake script (.ops file or a replay JSON of ./check): harness hs-script <seed> <file> <outdir>
         "hs-script" => hs::run_script(seed, tier, out),
         "merkle-one" => merkle::one(&args[2], &args[3]),
